@@ -248,7 +248,7 @@ pub fn check_decode(m: &mut Monitor, blob: &[u8], origin: &str) -> Option<Report
             };
             m.count(class);
             if origin.starts_with("mutated") || origin.starts_with("built") {
-                m.nontrivial(blob);
+                crate::util::nontrivial_capped(m, blob);
             }
             return None;
         }
@@ -328,7 +328,7 @@ pub fn check_decode(m: &mut Monitor, blob: &[u8], origin: &str) -> Option<Report
         m.violation("C28:decode:field_differs_from_abi_word", w(bad.join("; ")));
         return Some(report);
     }
-    m.nontrivial(blob);
+    crate::util::nontrivial_capped(m, blob);
     Some(report)
 }
 
@@ -403,7 +403,7 @@ pub fn check_convert(m: &mut Monitor, report: &Report, blob: &[u8]) {
             }
             let mut sig = blob.to_vec();
             sig.push(0xC0);
-            m.nontrivial(&sig);
+            crate::util::nontrivial_capped(m, &sig);
             if m.wants_sample() {
                 m.sample(json!({"kind": "conversion", "report": format!("{report:?}"), "price_feed_price": format!("{fp:?}")}));
             }
@@ -446,7 +446,7 @@ pub fn check_full(m: &mut Monitor, payload: &[u8], origin: &str) -> Option<(usiz
                 }
             }
             if origin != "random" {
-                m.nontrivial(payload);
+                crate::util::nontrivial_capped(m, payload);
             }
             None
         }
@@ -473,7 +473,7 @@ pub fn check_full(m: &mut Monitor, payload: &[u8], origin: &str) -> Option<(usiz
                     if len == 0 {
                         m.count("full_ok_empty_blob");
                     }
-                    m.nontrivial(payload);
+                    crate::util::nontrivial_capped(m, payload);
                     Some((start, start + len))
                 }
                 Abi::HeadTooShort => {
@@ -507,20 +507,26 @@ pub fn check_full(m: &mut Monitor, payload: &[u8], origin: &str) -> Option<(usiz
 }
 
 static BIG_ALLOC: Mutex<()> = Mutex::new(());
+const BIG_DECLARED: u64 = 4 << 20;
 
 fn snap_declared_len(c: &[u8]) -> Option<u64> {
     snap::raw::decompress_len(c).ok().map(|x| x as u64)
 }
 
 /// Compressed path.
-pub fn check_compressed(m: &mut Monitor, compressed: &[u8], origin: &str) {
-    m.eval();
+pub fn check_compressed(m: &mut Monitor, compressed: &[u8], origin: &str, big_ok: bool) {
     let w = |what: String| json!({"compressed_hex": hex(compressed), "origin": origin, "detail": what});
-    // Streams declaring a huge output make the decoder allocate that much (zeroed) memory up front;
-    // run those one at a time so that the harness itself cannot be the one that dies.
+    // Streams declaring a large output make the decoder allocate (and zero) that much memory up
+    // front. Those above 4 MiB are only run when `big_ok` (a fixed fraction of the cases) and one at
+    // a time, so that the harness itself cannot be the one that dies or crawls.
     let declared = snap_declared_len(compressed).unwrap_or(0);
-    let _g = if declared > (64 << 20) {
-        m.count("snap_declared_len_above_64MiB");
+    if declared > BIG_DECLARED && !big_ok {
+        m.count("snap_declared_len_above_4MiB_not_run");
+        return;
+    }
+    m.eval();
+    let _g = if declared > BIG_DECLARED {
+        m.count("snap_declared_len_above_4MiB_run");
         Some(BIG_ALLOC.lock().unwrap_or_else(|e| e.into_inner()))
     } else {
         None
@@ -546,7 +552,7 @@ pub fn check_compressed(m: &mut Monitor, compressed: &[u8], origin: &str) {
                 },
             }
             if origin != "random" {
-                m.nontrivial(compressed);
+                crate::util::nontrivial_capped(m, compressed);
             }
         }
         Ok(report) => {
@@ -587,7 +593,7 @@ pub fn check_compressed(m: &mut Monitor, compressed: &[u8], origin: &str) {
             }
             let mut sig = compressed.to_vec();
             sig.push(0x5A);
-            m.nontrivial(&sig);
+            crate::util::nontrivial_capped(m, &sig);
             if m.wants_sample() && origin.starts_with("built") {
                 m.sample(json!({"kind": "compressed full report", "compressed_len": compressed.len(), "payload_len": payload.len(), "blob": format!("{start}..{end}"), "report": format!("{report:?}")}));
             }
@@ -599,8 +605,8 @@ pub fn check_compressed(m: &mut Monitor, compressed: &[u8], origin: &str) {
 // structure-aware generators
 
 fn gen_i192(rng: &mut Rng) -> BigInt {
-    let max = (BigInt::one() << 191usize) - 1;
-    let min = -(BigInt::one() << 191usize);
+    let max: BigInt = (BigInt::one() << 191usize) - 1;
+    let min: BigInt = -(BigInt::one() << 191usize);
     let mag = |rng: &mut Rng| -> BigInt {
         match rng.below(6) {
             0 => BigInt::from(rng.log_u128(u128::MAX)),
@@ -662,7 +668,7 @@ pub fn gen_fields(rng: &mut Rng) -> Fields {
         5 => (&price - 2, &price - 1),
         _ => (&price - spread(rng), &price + spread(rng)),
     };
-    let lim = (BigInt::one() << 191usize) - 1;
+    let lim: BigInt = (BigInt::one() << 191usize) - 1;
     let clampi = |x: BigInt| x.clamp(-(BigInt::one() << 191usize), lim.clone());
     let obs = match rng.below(6) {
         0 => *rng.pick(&[0u32, 1, u32::MAX, u32::MAX - 1]),
@@ -1014,7 +1020,8 @@ pub fn mutate_compressed(rng: &mut Rng, c: &mut Vec<u8>, big_ok: bool) -> &'stat
             "mutated:declared_length"
         }
         6 => {
-            let e = rng.bytes(rng.range(1, 40) as usize);
+            let n = rng.range(1, 40) as usize;
+            let e = rng.bytes(n);
             c.extend_from_slice(&e);
             "mutated:extended"
         }
@@ -1022,7 +1029,8 @@ pub fn mutate_compressed(rng: &mut Rng, c: &mut Vec<u8>, big_ok: bool) -> &'stat
             // splice random element bytes into the body
             let h = header_len(c);
             let at = h + rng.below((c.len() - h) as u64 + 1) as usize;
-            let e = rng.bytes(rng.range(1, 12) as usize);
+            let n = rng.range(1, 12) as usize;
+            let e = rng.bytes(n);
             let tail = c.split_off(at.min(c.len()));
             c.extend_from_slice(&e);
             c.extend_from_slice(&tail);
@@ -1060,9 +1068,7 @@ pub fn random_case(m: &mut Monitor, rng: &mut Rng, big_ok: bool) {
                 check_convert(m, &r, &bytes);
             }
             check_full(m, &bytes, "random");
-            if big_ok || snap_declared_len(&bytes).unwrap_or(0) <= (64 << 20) {
-                check_compressed(m, &bytes, "random");
-            }
+            check_compressed(m, &bytes, "random", big_ok);
         }
         1..=8 => {
             // report blobs: decode + conversion
@@ -1104,15 +1110,40 @@ pub fn random_case(m: &mut Monitor, rng: &mut Rng, big_ok: bool) {
             let o2 = mutate_compressed(rng, &mut c, big_ok);
             let origin = if o2 == "built" && o1 == "built" { "built" } else if o2 == "built" { "built:payload_mutated" } else { o2 };
             m.count(&format!("input_compressed_{origin}"));
-            check_compressed(m, &c, origin);
+            check_compressed(m, &c, origin, big_ok);
         }
     }
 }
 
 /// The two real payload samples from the repository's tests (harness sanity + seeds for mutation).
-pub const SAMPLE_V3: &str = "0006f3dad14cf5df26779bd7b940cd6a9b50ee226256194abbb7643655035d6f0000000000000000000000000000000000000000000000000000000037a8ac19000000000000000000000000000000000000000000000000000000000000000000000000000000000000000000000000000000000000000000000000000000e0000000000000000000000000000000000000000000000000000000000000022000000000000000000000000000000000000000000000000000000000000002800101000000000000000000000000000000000000000000000000000000000000000000000000000000000000000000000000000000000000000000000000000120000305a183fedd7f783d99ac138950cff229149703d2a256d61227ad1e5e66ea000000000000000000000000000000000000000000000000000000006726f480000000000000000000000000000000000000000000000000000000006726f4800000000000000000000000000000000000000000000000000000251afa5b7860000000000000000000000000000000000000000000000000002063f8083c67140000000000000000000000000000000000000000000000000000000067284600000000000000000000000000000000000000000000000000140f9559e8f303f4000000000000000000000000000000000000000000000000140ede2b993743740000000000000000000000000000000000000000000000001410c8d592a7f8000000000000000000000000000000000000000000000000000000000000000002abc5fcd50a149ad258673b44c2d1737d175c134a29ab0e1091e1f591af564132737fedd8929a5e6ee155532f116946351e79c1ea3efdb3c88792f48c7cbb02ca00000000000000000000000000000000000000000000000000000000000000027a478e131ba1474e6b53f2c626ec349f27d64606b1e783d7cb637568ad3b0f7c3ed29f3fd7de70dc2b08e010ab93448e7dd423047e0f224d7145e0489faa9f23";
+pub const SAMPLE_V3: &[&str] = &[
+    "0006f3dad14cf5df26779bd7b940cd6a9b50ee226256194abbb7643655035d6f",
+    "0000000000000000000000000000000000000000000000000000000037a8ac19",
+    "0000000000000000000000000000000000000000000000000000000000000000",
+    "00000000000000000000000000000000000000000000000000000000000000e0",
+    "0000000000000000000000000000000000000000000000000000000000000220",
+    "0000000000000000000000000000000000000000000000000000000000000280",
+    "0101000000000000000000000000000000000000000000000000000000000000",
+    "0000000000000000000000000000000000000000000000000000000000000120",
+    "000305a183fedd7f783d99ac138950cff229149703d2a256d61227ad1e5e66ea",
+    "000000000000000000000000000000000000000000000000000000006726f480",
+    "000000000000000000000000000000000000000000000000000000006726f480",
+    "0000000000000000000000000000000000000000000000000000251afa5b7860",
+    "000000000000000000000000000000000000000000000000002063f8083c6714",
+    "0000000000000000000000000000000000000000000000000000000067284600",
+    "000000000000000000000000000000000000000000000000140f9559e8f303f4",
+    "000000000000000000000000000000000000000000000000140ede2b99374374",
+    "0000000000000000000000000000000000000000000000001410c8d592a7f800",
+    "0000000000000000000000000000000000000000000000000000000000000002",
+    "abc5fcd50a149ad258673b44c2d1737d175c134a29ab0e1091e1f591af564132",
+    "737fedd8929a5e6ee155532f116946351e79c1ea3efdb3c88792f48c7cbb02ca",
+    "0000000000000000000000000000000000000000000000000000000000000002",
+    "7a478e131ba1474e6b53f2c626ec349f27d64606b1e783d7cb637568ad3b0f7c",
+    "3ed29f3fd7de70dc2b08e010ab93448e7dd423047e0f224d7145e0489faa9f23",
+];
 
-pub fn unhex(s: &str) -> Vec<u8> {
+pub fn unhex(words: &[&str]) -> Vec<u8> {
+    let s: String = words.concat();
     (0..s.len() / 2).map(|i| u8::from_str_radix(&s[2 * i..2 * i + 2], 16).unwrap()).collect()
 }
 
@@ -1126,7 +1157,7 @@ pub fn sample_based(m: &mut Monitor, rng: &mut Rng) {
         }
     }
     let c = snap_compress(&base);
-    check_compressed(m, &c, "built");
+    check_compressed(m, &c, "built", false);
     for _ in 0..200 {
         let mut p = base.clone();
         let at = *rng.pick(&[96usize, 0xe0]);
@@ -1144,7 +1175,7 @@ pub fn sample_based(m: &mut Monitor, rng: &mut Rng) {
         if rng.bool() {
             mutate_compressed(rng, &mut c, false);
         }
-        check_compressed(m, &c, "mutated:real_sample");
+        check_compressed(m, &c, "mutated:real_sample", false);
     }
 }
 
@@ -1162,15 +1193,15 @@ pub fn run(args: &Args) -> i32 {
          check; distinct = distinct input byte strings (per entry point)",
     );
     let n_shards = 64u64;
-    let per_shard = args.scale(40_000, 700_000);
+    let per_shard = args.scale(160_000, 2_000_000);
     vcommon::monitor::run_shards(&mut mon, args.threads, n_shards, |shard, m| {
         let mut rng = Rng::derive(args.seed, shard, 28);
         if shard < 8 {
             sample_based(m, &mut rng);
         }
         for i in 0..per_shard {
-            // streams that declare > 64 MiB are exercised rarely (they allocate that much)
-            random_case(m, &mut rng, i % 512 == 0);
+            // streams that declare > 4 MiB of output are exercised in 1/64 of the cases (they allocate that much)
+            random_case(m, &mut rng, i % 64 == 0);
         }
     });
     for (k, n) in [
@@ -1200,7 +1231,7 @@ pub fn run(args: &Args) -> i32 {
     }
     mon.assume("ABI reading: word 3 of the payload is the 256-bit offset of a `bytes` value (32-byte length word followed by the data); no padding/canonicity requirement beyond that");
     mon.assume("field comparison after `decode` only for words that are canonical for their Solidity type (others counted as noncanonical_words_skipped)");
-    mon.assume("snappy streams declaring more than 64 MiB of output are run one at a time and rarely (the decoder allocates the declared size up front)");
+    mon.assume("snappy streams declaring more than 4 MiB of output are only run in 1/64 of the cases and one at a time (the decoder allocates and zeroes the declared size up front); the others are counted as snap_declared_len_above_4MiB_not_run");
     crate::miri::attach(args, &mut mon);
     mon.finish()
 }
@@ -1217,7 +1248,7 @@ mod tests {
         let mut rng = Rng::derive(seed, 0, 2800);
         let base = unhex(SAMPLE_V3);
         let c = snap_compress(&base);
-        check_compressed(&mut m, &c, "built");
+        check_compressed(&mut m, &c, "built", false);
         for _ in 0..crate::util::miri_cases(60) {
             random_case(&mut m, &mut rng, false);
         }
